@@ -645,6 +645,10 @@ def check(run, repo):
 N = 'pmutt/empirical/nasa.py'
 S = 'pmutt/empirical/shomate.py'
 MUTANTS = [
+    {'name': 'Shomate entropy evaluated in the default unit', 'expect': ('SEGMENT.use', 'Shomate.get_SoR'),
+     'edits': [('pmutt/empirical/shomate.py', "        SoR = get_shomate_SoR(a=self.a, T=T, units=self.units)", "        SoR = get_shomate_SoR(a=self.a, T=T, units='J/mol/K')")]},
+    {'name': 'NASA-9 enthalpy falls back to the first segment outside every segment', 'expect': ('PATH.refuse', 'Nasa9.get_HoRT'),
+     'edits': [('pmutt/empirical/nasa.py', "            nasa = self._get_nasa(T=T)\n            HoRT = nasa.get_HoRT(T=T) \\", "            try:\n                nasa = self._get_nasa(T=T)\n            except ValueError:\n                nasa = self.nasas[0]\n            HoRT = nasa.get_HoRT(T=T) \\")]},
     {'name': 'nasa HoRT T^3/4 -> T^3/3', 'expect': ('DERIV', 'get_nasa_HoRT'),
      'edits': [(N, '[np.ones_like(T), T / 2., (T**2) / 3., (T**3) / 4., (T**4) / 5.,',
                 '[np.ones_like(T), T / 2., (T**2) / 3., (T**3) / 3., (T**4) / 5.,')]},
